@@ -80,12 +80,69 @@ Theorem read_refines_bytes : forall c ops slot f w off len w' x, 0 < c_ss c ->
 Proof. exact read_refines_lemma. Qed.
 Print Assumptions read_refines_bytes.
 
-(* Not proved (checked by the correspondence run only): that Truncate keeps
-   the bytes below the new size and that bytes exposed by growing are null
-   ("also after shrinking and re-growing"), i.e. the full statement
-     forall c ops, ops_wf ops -> trace_ok c (trace c (init c) ops) = true
-   for the content part [p_content] of the monitor.  The sector and quota
-   parts are proved above for all histories. *)
+(* file_refines_bytes, complete: the monitor of Spec.v -- the very [p_step] that
+   Corr.v evaluates on the implementation's trace -- accepts the trace of the
+   model for every history (all operations: NewFile, WriteAt, ReadAt,
+   Truncate shrinking and growing, GetNextRegionOffset, Close, direct allocator
+   calls, the final close-all/re-allocate-all step; every failure oracle).
+   Its parts: [p_content] (ReadAt returns exactly the reference sparse byte
+   array of the file: written bytes, hole source contents, null bytes in
+   regions never written, also after shrinking and re-growing; right count
+   and EOF flag; errors only with a failed collaborator call), sizes of all
+   files after every operation, [p_seek], [p_sectors] at the level of single
+   allocator / device calls (every sector handed out is free, every free and
+   every device access is to a sector of the file operated on, allocation
+   fails only when everything is held, close releases everything, full
+   capacity is handed out again at the end), [p_quota].  [ops_wf]: hole
+   sources are not longer than the file at NewFile (the HoleSource contract
+   of the harness). *)
+Theorem file_refines_bytes : forall c ops, 0 < c_ss c -> ops_wf ops ->
+  trace_ok c (trace c (init c) ops) = true.
+Proof. exact file_refines_bytes_lemma. Qed.
+Print Assumptions file_refines_bytes.
+
+(* Truncate, in every reachable state and for every failure oracle: bytes
+   below the new size keep their value; a file reads as null bytes beyond its
+   size both before and after (the tail of the last sector was zeroed, freed
+   sectors read through the truncated hole source), so the bytes exposed by
+   growing -- by this Truncate or, with write_refines_bytes, by a later
+   WriteAt past the end -- are null; a failed Truncate leaves the size
+   unchanged. *)
+Theorem truncate_refines_bytes : forall c ops slot f w size w' f' e, 0 < c_ss c -> ops_wf ops ->
+  let st := run c (init c) ops in
+  get_file st slot = Some f -> w_dev w = st_dev st -> w_al w = st_al st -> (0 <= size)%Z ->
+  file_truncate (c_ss c) w f size = (w', f', e) ->
+  let sz := Z.to_nat size in
+  (forall j, j < sz -> j < N.to_nat (f_size f) -> content (c_ss c) (w_dev w') f' j = content (c_ss c) (w_dev w) f j) /\
+  (forall j, N.to_nat (f_size f) <= j -> content (c_ss c) (w_dev w) f j = 0%N) /\
+  (forall j, N.to_nat (f_size f') <= j -> content (c_ss c) (w_dev w') f' j = 0%N) /\
+  (e = ENone -> f_size f' = Z.to_N size /\
+     forall j, N.to_nat (f_size f) <= j -> j < sz -> content (c_ss c) (w_dev w') f' j = 0%N) /\
+  (e <> ENone -> f_size f' = f_size f /\ sz < N.to_nat (f_size f)).
+Proof. exact truncate_refines_lemma. Qed.
+Print Assumptions truncate_refines_bytes.
+
+(* GetNextRegionOffset, in every reachable state: at sector granularity a byte
+   is data iff its sector is allocated or the hole source reports data there
+   ([data_at]).  SEEK_DATA returns the first data byte at or after the offset
+   (below the size), or EOF exactly when there is none; SEEK_HOLE returns the
+   first non-data byte at or after the offset, or the size; any other error is
+   a failed hole source call; the call never panics (no hole at the end of the
+   sector list). *)
+Theorem seek_refines_regions : forall c ops slot f w off (data : bool) w' x, 0 < c_ss c -> ops_wf ops ->
+  let st := run c (init c) ops in
+  get_file st slot = Some f -> w_dev w = st_dev st -> w_al w = st_al st -> w_ev w = [] ->
+  (0 <= off)%Z -> (Z.to_N off < f_size f)%N ->
+  file_seek (c_ss c) w f off data = (w', x) ->
+  exists r e, x = ORes r e [] /\ a_panic (w_al w') = false /\
+    match e with
+    | ENone => (0 <= r)%Z /\
+               if data then DataRes c f (Z.to_nat off) (Z.to_nat r) else HoleRes c f (Z.to_nat off) (Z.to_nat r)
+    | EEOF => data = true /\ forall j, Z.to_nat off <= j -> ~ data_at c f j
+    | _ => e = EInjected /\ existsb is_failed_ev (w_ev w') = true
+    end.
+Proof. exact seek_refines_lemma. Qed.
+Print Assumptions seek_refines_regions.
 
 (* Non-vacuity: a history that creates two files, fragments the device,
    fails a write half-way, and ends with everything closed. *)
@@ -106,6 +163,9 @@ Example ex_reaches_fragmented_state :
   st_remb st = 35%N /\ st_remf st = 2%N /\
   option_map f_secs (get_file st 0) = Some [1; 2].
 Proof. vm_compute. repeat split. Qed.
+
+Example ex_ops_wf : ops_wf ex_ops.
+Proof. intros o Ho. cbn in Ho. repeat destruct Ho as [<-|Ho]; try reflexivity. destruct Ho. Qed.
 
 Example ex_trace_accepted : trace_ok ex_cfg (trace ex_cfg (init ex_cfg) ex_ops) = true.
 Proof. vm_compute. reflexivity. Qed.
